@@ -4,6 +4,7 @@ package main
 
 import (
 	"fmt"
+	"strconv"
 	"go/token"
 	"go/types"
 	"sort"
@@ -316,6 +317,38 @@ func phiStep(lp *loop, p *ssa.Phi) (int64, bool) {
 	return step, found
 }
 
+// unrollable: a compiler-generated slice iteration whose bound is a small constant and that has no
+// written invariant is executed iteration by iteration (no cut, no havoc).
+func (e *Engine) unrollable(s *State, f *Frame, lp *loop) bool {
+	if len(e.contracts.loopInvariants(e, f.fn, lp.ordinal)) > 0 {
+		return false
+	}
+	for _, in := range lp.header.Instrs {
+		b, ok := in.(*ssa.BinOp)
+		if !ok || b.Op != token.LSS {
+			continue
+		}
+		inc, ok := b.X.(*ssa.BinOp)
+		if !ok {
+			continue
+		}
+		p, ok := inc.X.(*ssa.Phi)
+		if !ok || p.Comment != "rangeindex" || p.Block() != lp.header {
+			continue
+		}
+		var bound *Term
+		if v, ok := f.regs[b.Y]; ok {
+			bound = v[0]
+		} else if c, ok := b.Y.(*ssa.Const); ok {
+			bound = e.constValue(c)[0]
+		}
+		if bound != nil && bound.K == KInt && bound.I <= 8 {
+			return true
+		}
+	}
+	return false
+}
+
 func (e *Engine) cutLoop(s *State, f *Frame, lp *loop, from *ssa.BasicBlock) {
 	key := e.loopKey(f.fn, lp)
 	// 1. invariant on entry
@@ -436,6 +469,7 @@ func (e *Engine) cutLoop(s *State, f *Frame, lp *loop, from *ssa.BasicBlock) {
 		e.afterHavocPhi(s, f, lp, p, initVals[p], v)
 	}
 	entry.initVals = initVals
+	entry.traceLen = len(s.trace)
 	f.loops[lp.header] = entry
 	// allocation state at the start of an arbitrary iteration: a fresh watermark above everything
 	// allocated so far (earlier iterations allocate too)
@@ -527,6 +561,9 @@ func (e *Engine) loopInvariantValue(lp *loop, v ssa.Value) bool {
 // ---------------------------------------------------------------- written invariants
 
 func (e *Engine) checkLoopInvariant(s *State, f *Frame, lp *loop, from *ssa.BasicBlock, entry bool) {
+	if !entry {
+		e.checkIterationEnsures(s, f, lp)
+	}
 	invs := e.contracts.loopInvariants(e, f.fn, lp.ordinal)
 	if len(invs) == 0 {
 		return
@@ -765,4 +802,36 @@ func appendOnlyPhi(lp *loop, p *ssa.Phi) bool {
 		}
 	}
 	return true
+}
+
+
+// checkIterationEnsures: at a back edge, the effects of the iteration just completed (trace events
+// appended since the loop head) satisfy the loop's iteration-ensures clauses.
+func (e *Engine) checkIterationEnsures(s *State, f *Frame, lp *loop) {
+	c := e.contracts.lookup(e, f.fn)
+	if c == nil || c.loopIter == nil {
+		return
+	}
+	le := f.loops[lp.header]
+	if le == nil {
+		return
+	}
+	for i, cl := range c.loopIter[lp.ordinal] {
+		env := e.envForFrame(s, f, nil)
+		env.pkg = cl.pkg
+		env.iterFrom = le.traceLen
+		if env.iterFrom == 0 {
+			env.iterFrom = -1
+		}
+		r := e.evalSpec(env, cl.ast)
+		label := cl.label
+		if label == "" {
+			label = strconv.Itoa(i)
+		}
+		name := fmt.Sprintf("%s#ITER:%s", e.loopKey(f.fn, lp), label)
+		if f.chain != "" {
+			name = f.chain + "/" + name
+		}
+		e.oblige(s, "POST", name, "iteration-ensures "+cl.text, lp.header.Instrs[0].Pos(), r.v[0])
+	}
 }
